@@ -1,4 +1,5 @@
 import LexgenModel.Proofs.NextProtocol
+import LexgenModel.Proofs.RefRefine
 /-!
 # C05 — End-of-input protocol (model part): fused stream, `$` matches via the end-of-input symbol
 -/
@@ -16,5 +17,17 @@ theorem C05_eoi_only_at_end (cfg : Config σ τ ε) (s : Nat) (iter : List Nat) 
   obtain ⟨_, c, _, h2⟩ := h
   simp only [if_true] at h2
   exact h2.1
+
+/-- The end-of-input protocol at the language level: every call is a step of the reference lexer `RefNext`, whose
+constructors are exactly the protocol — `done` (fused stream), `ret`/`cont` with `viaEoi` (a match through `$` is preferred
+at full length and sets `done`), `eof` (nothing matches, input exhausted, first rule set active: `None`), `invalid` (any other
+rule set active at the end: `InvalidToken`). -/
+theorem C05_refines_reference (items : LexerDef) (c : Compiled) (h : compileLexer items = .ok c) (hok : DefOK items)
+    (ctxAt : Nat → Regex) (hnum : CtxNumbering items ctxAt)
+    (actions : Nat → Action σ τ ε) (width : Nat → Nat) (input : Option (List Nat))
+    (st : LState σ) (hr : Ready (c.config actions width input) st)
+    (r : Option (Item τ ε) × LState σ) (hn : next (c.config actions width input) st = some r) :
+    RefNext items c ctxAt (c.config actions width input) st r :=
+  next_refines_ref items c h hok ctxAt hnum actions width input st hr r hn
 
 end Lexgen
